@@ -83,7 +83,12 @@ def run_boundedlive(ctx, drv):
     table = {}
     for name, a, b, big in res:
         if a[0] is None:
-            ctx.correspondence_broken("boundedlive:%s" % name, {"what": "does not complete even with a 60000-cell heap", "class": a[1]})
+            if a[1].startswith("CRASH"):
+                src = SHAPES[name].replace("%%", "%").replace("%N%", str(n1))
+                ctx.violation("bounded-live:crash:%s" % name, "loop form `%s` (%d iterations) at heap 60000: %s" % (name, n1, a[1]),
+                              {"program": src, "mem": 60000, "class": a[1]})
+            else:
+                ctx.correspondence_broken("boundedlive:%s" % name, {"what": "does not complete even with a 60000-cell heap", "class": a[1]})
             continue
         m, cls, det = b
         table[name] = {"need_at_%d" % n1: a[0], "heap_used_for_%dx" % factor: m, "outcome": cls}
